@@ -163,6 +163,7 @@ func diffHelpers(c *Ctx) {
 					fmt.Sprintf("%s returns before the scans filling its added and removed results have both run: a removal (or addition) is not reported whenever the shortcut's length argument fails, e.g. with a repeated element", fname))
 			}
 		}
+		searchNeedsOrder(c, R, fname, d)
 		c.check(bad == "", R, fname+"#set-semantics", c.P.Pos(pos), "membership tests only",
 			fmt.Sprintf("%s: %s — elements are matched as a multiset, so lists that are equal as sets (a repeated entry) are reported as different", fname, bad))
 		// added ← second operand \ first ; removed ← first \ second
@@ -507,4 +508,64 @@ func paramNames(d *declInfo) []string {
 		}
 	}
 	return out
+}
+
+
+// searchNeedsOrder: a membership test through a binary search (slices.BinarySearch*, sort.Search*)
+// answers correctly only on a slice that is sorted in the order the search uses. The operand lists
+// of a diff carry no order, so the searched slice must have been sorted in this function (or come
+// from a helper every return of which is sorted) before the search.
+func searchNeedsOrder(c *Ctx, R, fname string, d *declInfo) {
+	k := 0
+	ast.Inspect(d.fd.Body, func(x ast.Node) bool {
+		ce, ok := x.(*ast.CallExpr)
+		if !ok || len(ce.Args) < 2 {
+			return true
+		}
+		f, _ := typeutil.Callee(d.pkg.TypesInfo, ce).(*types.Func)
+		if f == nil || f.Pkg() == nil {
+			return true
+		}
+		switch f.Pkg().Path() + "." + f.Name() {
+		case "slices.BinarySearch", "slices.BinarySearchFunc", "sort.SearchStrings", "sort.SearchInts", "sort.SearchFloat64s":
+		default:
+			return true
+		}
+		k++
+		subj := objOf(d.pkg, ce.Args[0])
+		sorted := false
+		if subj != nil {
+			ast.Inspect(d.fd.Body, func(y ast.Node) bool {
+				switch s := y.(type) {
+				case *ast.CallExpr:
+					if s.Pos() >= ce.Pos() || len(s.Args) < 1 || objOf(d.pkg, s.Args[0]) != subj {
+						return true
+					}
+					if g, _ := typeutil.Callee(d.pkg.TypesInfo, s).(*types.Func); g != nil && g.Pkg() != nil {
+						switch g.Pkg().Path() + "." + g.Name() {
+						case "slices.Sort", "slices.SortFunc", "slices.SortStableFunc", "sort.Strings", "sort.Ints", "sort.Float64s", "sort.Slice", "sort.SliceStable":
+							sorted = true
+						}
+					}
+				case *ast.AssignStmt:
+					if s.Pos() >= ce.Pos() || len(s.Rhs) != 1 {
+						return true
+					}
+					for _, l := range s.Lhs {
+						if objOf(d.pkg, l) == subj {
+							if rc, isCall := s.Rhs[0].(*ast.CallExpr); isCall {
+								if g, _ := typeutil.Callee(d.pkg.TypesInfo, rc).(*types.Func); g != nil && (returnsSorted(c, g) || g.FullName() == "slices.Sorted") {
+									sorted = true
+								}
+							}
+						}
+					}
+				}
+				return true
+			})
+		}
+		c.check(sorted, R, fmt.Sprintf("%s#search-order@%d", fname, k), c.P.Pos(ce.Pos()), "binary search over a slice sorted in this function",
+			fmt.Sprintf("%s looks an element up with %s.%s in %s, which nothing has sorted: on an unsorted list the search misses elements that are present, so equal lists are reported as different (and an element can be reported as both added and removed)", fname, f.Pkg().Name(), f.Name(), types.ExprString(ce.Args[0])))
+		return true
+	})
 }
